@@ -304,6 +304,8 @@ theorem inv_removeFileAndEmptyParents (hF : Framed I) {p : Bytes} (h : PathOk I 
 theorem inv_permissionCallback (hF : Framed I) {p : Bytes} (h : PathOk I p) (m : Nat) (perm : PermResult) :
     Inv I (permissionCallback m perm p) := by
   unfold permissionCallback; dm_walk [inv_opChmod hF h _]
+theorem inv_makeWayFor (hF : Framed I) {p : Bytes} (h : PathOk I p) : Inv I (makeWayFor p) := by
+  unfold makeWayFor; dm_walk [inv_fsIsSymlink _, inv_fsIsRegular _, inv_doOp hF.tick (h.unlink _ ?_)]
 theorem inv_makeBackupFor (hF : Framed I) {o : Options} {p : Bytes} (h : PathOk I (backupName o p))
     (hr : RenameOk I p (backupName o p)) : Inv I (makeBackupFor o p) := by
   constructor
@@ -316,8 +318,9 @@ theorem inv_makeBackupFor (hF : Framed I) {o : Options} {p : Bytes} (h : PathOk 
   · rw [run_bind, run_set]
     dsimp only
     have : Inv I (do ensureParentDirs (backupName o p)
-                     if (← fsExists p) then opRename p (backupName o p) else opCreat (backupName o p)) := by
-      dm_walk [inv_ensureParentDirs hF h, inv_fsExists _, inv_opRename hF hr, inv_opCreat hF h]
+                     if (← fsExists p) then opRename p (backupName o p)
+                     else do makeWayFor (backupName o p); opCreat (backupName o p)) := by
+      dm_walk [inv_ensureParentDirs hF h, inv_fsExists _, inv_opRename hF hr, inv_opCreat hF h, inv_makeWayFor hF h]
     exact this.out _ (hF.frame s _ hs rfl rfl rfl rfl rfl rfl rfl)
   · exact hs
 theorem inv_makeWritable (hF : Framed I) {p : Bytes} (h : PathOk I p) (perm : PermResult) : Inv I (makeWritable perm p) := by
@@ -343,11 +346,11 @@ theorem inv_set_framed (hF : Framed I) {s s' : DState} (hs : I s) (h1 : s'.fs = 
     (h7 : s'.faultAt = s.faultAt) : Inv I (set s' : DM PUnit) :=
   ⟨fun _ _ => hF.frame s s' hs h1 h2 h3 h4 h5 h6 h7⟩
 
-theorem inv_openRejects (hF : Framed I) {rej : Bytes} (h : PathOk I rej) : Inv I (openRejects rej) := by
+theorem inv_openRejects (hF : Framed I) {o : Options} {rej : Bytes} (h : PathOk I rej) : Inv I (openRejects o rej) := by
   unfold openRejects
-  dm_walk [inv_fsExists _, inv_opCreat hF h, inv_set_framed hF ?_ rfl rfl rfl rfl rfl rfl rfl]
+  dm_walk [inv_fsExists _, inv_opCreat hF h, inv_makeWayFor hF h, inv_set_framed hF ?_ rfl rfl rfl rfl rfl rfl rfl]
   next s hs _ => exact hF.frame s _ hs rfl rfl rfl rfl rfl rfl rfl
-theorem inv_writeRejects (hF : Framed I) {rej : Bytes} (h : PathOk I rej) (b : Bytes) : Inv I (writeRejects rej b) := by
+theorem inv_writeRejects (hF : Framed I) {o : Options} {rej : Bytes} (h : PathOk I rej) (b : Bytes) : Inv I (writeRejects o rej b) := by
   unfold writeRejects; dm_walk [inv_openRejects hF h, inv_opWrite hF h _]
 
 theorem inv_refuseToPatch (hF : Framed I) {o : Options} {out : Bytes} (h : o.dryRun = false → PathOk I (rejectPath o out))
